@@ -508,6 +508,11 @@ func (c *Client) reconnect(ctx context.Context) error {
 		return err
 	}
 	c.conn = newConn(stream)
+	if c.closed.Load() {
+		// The client has been closed while dialing: do not leave a live connection behind.
+		_ = c.conn.Close()
+		return net.ErrClosed
+	}
 	return nil
 }
 
